@@ -1,6 +1,6 @@
 """C10 morph-graph mutation: MorphAbs.tla is the serial graph ADT (live nodes + one edge multiset
 from which out-, in- and symmetric views are derived).  (1) Sequential histories on every flavour
-(directed, in/out, undirected, sorted neighbours, no-lockable) with a full structural dump through
+(directed, in/out, undirected, their sorted-neighbour variants, no-lockable) with a full structural dump through
 the public API after each operation; (2) mutation programs inside the real for_each (one mutator
 per iteration, default conflict flags) under controlled schedules, jitter and free, with the
 commit log taken by the operator while it still owns what it touched and a full dump after the
@@ -11,25 +11,32 @@ from vlib.common import *
 from vlib import accept, conc
 
 LEVEL = "model_checking"
+FLAVOURS = ["directed", "inout", "undirected", "sorted", "sorted-undirected", "sorted-inout", "nolockable"]
 SP = os.path.join(SPECS, "graphs")
 
 
 def run(ev, vd):
     make(cbin("morph"), fbin("morph"))
-    jobs = [("seq", fbin("morph"), None), ("ctl", cbin("morph"), None), ("ctl", cbin("morph"), "2x2"), ("jitter", cbin("morph"), None),
-            ("free", fbin("morph"), None), ("free", fbin("morph"), "2x4")]
+    jobs = [("seq", fbin("morph"), None, "noloops", "all"), ("ctl", cbin("morph"), None, "noloops", "all"), ("ctl", cbin("morph"), "2x2", "noloops", "all"),
+            ("jitter", cbin("morph"), None, "noloops", "all"), ("free", fbin("morph"), None, "noloops", "all"), ("free", fbin("morph"), "2x4", "noloops", "all")]
+    # executions with self loops: one process per (mode, flavour) -- see morph.cpp
+    for fl in FLAVOURS:
+        jobs += [("seq", fbin("morph"), None, "loops", fl), ("ctl", cbin("morph"), None, "loops", fl), ("free", fbin("morph"), None, "loops", fl)]
 
     def job(j):
-        k, (mode, binp, topo) = j
+        k, (mode, binp, topo, loops, fl) = j
         out = os.path.join(BUILD, "tmp", "morph_%d.ndjson" % k)
-        rc, o, dt = conc.run_harness(binp, [out, ev.seed * 100 + k, tier(), mode], topo=topo, timeout=(900 if tier() == "thorough" else 300))
+        rc, o, dt = conc.run_harness(binp, [out, ev.seed * 100 + k, tier(), mode, loops, fl], topo=topo, timeout=(900 if tier() == "thorough" else 300))
         return j, out, rc, o
-    with cf.ThreadPoolExecutor(max_workers=6) as ex:
+    with cf.ThreadPoolExecutor(max_workers=8) as ex:
         results = list(ex.map(job, list(enumerate(jobs))))
     paths = []
-    for (k, (mode, binp, topo)), out, rc, o in results:
+    for (k, (mode, binp, topo, loops, fl)), out, rc, o in results:
         if rc == 124:
-            vd.violation(dict(component="morph", op="hang-" + mode), "morph harness (%s) did not return" % mode, dict(mode=mode))
+            vd.violation(dict(component="morph", op="hang-" + mode, flavour=fl, selfloops=1 if loops == "loops" else 0),
+                         "morph harness (%s, %s, %s) did not return" % (mode, loops, fl), dict(mode=mode))
+        elif loops == "loops":
+            pass   # a crashed self-loop process leaves an execution without 'end' behind: rejected below
         elif rc not in (0, 3, 43, 44):
             raise ToolError("morph harness failed rc=%s (%s):\n%s" % (rc, mode, o[-1500:]))
         paths.append(out)
